@@ -35,14 +35,14 @@ func main() {
 	switch os.Args[1] {
 	case "worker":
 		a := os.Args[2:]
-		if len(a) != 7 {
+		if len(a) != 8 {
 			usage()
 		}
 		shard, _ := strconv.Atoi(a[2])
 		nsh, _ := strconv.Atoi(a[3])
 		start, _ := strconv.Atoi(a[4])
 		dl, _ := strconv.ParseInt(a[6], 10, 64)
-		core.WorkerMain(a[0], a[1], shard, nsh, start, a[5], time.Unix(dl, 0))
+		core.WorkerMain(a[0], a[1], shard, nsh, start, a[5], time.Unix(dl, 0), a[7])
 	case "run":
 		fs := flag.NewFlagSet("run", flag.ExitOnError)
 		tier := fs.String("tier", "quick", "quick|thorough")
